@@ -9,7 +9,7 @@ def main() -> int:
     job = json.load(open(sys.argv[1]))
     from vf.core import env
 
-    env.prepare(num_threads=job.get("num_threads", 1))
+    env.prepare(num_threads=job["num_threads"] if "num_threads" in job else 1)  # None = all cores (C19 varies the thread count itself)
     from vf.core import engine
 
     ctx = engine.Ctx(**job["ctx"])
